@@ -129,6 +129,12 @@ let handle line =
       (match Model.x_decode (unhex bs) with
        | None -> "NONE"
        | Some (i, rest) -> Printf.sprintf "SOME %s %s %d" (ascii_of (Model.x_canon i.i_mnem)) (string_of_operand i.i_op) (List.length rest))
+  | ["dsmodes"] ->
+      let name = function AInh -> "inh" | AImm8 -> "imm8" | AImm16 -> "imm16" | ADir -> "dir" | AIdx -> "idx" | AExt -> "ext"
+                        | ARel8 -> "rel8" | ARel16 -> "rel16" | ARegList -> "reglist" | ARegPair -> "regpair" in
+      String.concat ";" (List.filter_map (fun (pg, op) -> match Model.x_opcode_entry pg op with
+        | Some (m, a) -> Some (Printf.sprintf "%s,%s,%d,%d" (ascii_of m) (name a) (int_of_n pg) (int_of_n op))
+        | None -> None) Model.x_all_opcodes)
   | _ -> "ERROR unknown command"
 
 let () =
